@@ -615,10 +615,14 @@ Definition cfg_F10 : config := mkConfig Pre Pre InLoop [CStart true false] Plain
 Definition cfg_F11 : config := mkConfig Cur Pre Plain [CStart false false; CStop false] Plain [].
 (* source skeletons the programs above were transcribed from; the harness derives the same
    notation from the abstract syntax tree of loader.py on every run and compares
-   (L(...) = with self._lock; ?(a|b) = if/else; W(...) = while; T(...)E(...) = try/except) *)
+   (L(...) = with self._lock; X(...) = with ThreadPoolExecutor; ?(a|b) = if/else; W(...) = while;
+   T(...)E(...) = try/except; def(...) = nested function; tokens = the calls that matter, in
+   evaluation order: src = source.etag()/load(), setpol = guard.set_policy, regerr =
+   _register_error, core = the async core, check = check_and_reload, run = asyncio.run, ...) *)
 Local Open Scope string_scope.
 Definition skeletons : list (string * string) :=
-  [ ("check_and_reload", "T(getloop)E() ?(core run ret|) def(core run ret) X(submit result ret)");
+  [ ("__init__", "T(?(|?(src|)))E() RLock Event");
+    ("check_and_reload", "T(getloop)E() ?(core run ret|) def(core run ret) X(submit result ret)");
     ("check_and_reload_async",
      "L(?(ret|)) T(?(T(src)E() src L(setpol) ret|) src ?(ret|) src L(setpol) ret)E(regerr)E(regerr)E(regerr) ret");
     ("refresh_if_needed", "check ret");
@@ -627,6 +631,7 @@ Definition skeletons : list (string * string) :=
     ("stop", "L(?(ret|) set) join L()");
     ("_register_error", "L()");
     ("_run_loop", "W(isset T(check)E() L() W(isset ?(brk|) wait))");
+    ("Guard.__init__", "Lock T(getloop)E()");
     ("Guard.evaluate_sync", "T(getloop)E() ?(core run ret|) def(core run ret) X(submit result ret)");
     ("Guard.set_policy", "");
     ("Guard._install_policy", "?(ret|) with()");
